@@ -236,7 +236,7 @@ _ADDED = {
            "definition on every path or hands its argument back), R-SORTMAP, R-ETA (no eta-contraction without a free-variable test); R-SEED: no name is drawn before the body's binders are in the set.",
     "C03": " R-COUNTER (a lent copy of the identifier counter is read again), R-SORTMAP (sort-to-sort tables are the identity, the mirror image or "
            "the complement and match what the caller exchanges), R-ETA, R-FOCUSCUT (a cut of two sides that are no xtors or operations focuses "
-           "to the cut of the focused sides, for every pair of shapes).",
+           "to the cut of the focused sides, for every pair of shapes), R-BINDSEQ (bind_many gets the argument list as it stands).",
     "C04": " R-CUTKIND declares the free variables of its symbolic bodies per variant and judges critical pairs for evaluation order; R-USEALL treats "
            "the sub-terms of a by-value node as inputs of their own; R-COUNTER, R-SHAREPATH, R-SORTMAP, R-ETA, R-LIFTSTORE, R-LABEL; renaming chains, eta-expansions and the clauses generated for "
            "critical pairs are folded on concrete declarations.",
@@ -257,7 +257,7 @@ _ADDED = {
     "C19": " R-ONCE (lift translates what it shares once), R-LIFTSTORE (the collection of lifted definitions is only added to), R-SHAREPATH, "
            "R-XLATE (a continuation is placed where the translation scheme places it, not substituted into several positions).",
     "C20": " The print-call classes of R-ABI are part of the check (live variables survive the print primitives); R-TEMPLATE reads strto* conversions with "
-           "their base (10).",
+           "their base (10); R-DEFFIRST (the first definition of the program stays main when a statement is lifted out of it).",
 }
 for _k, _v in _ADDED.items():
     if _k in META and _v not in META[_k].get("note", ""):
